@@ -133,6 +133,7 @@ func c01(r *core.Report) {
 	c01Unique(r)
 	c01EmptyParts(r)
 	c01Length(r)
+	c01Unsigned(r)
 
 	// ---------------- C01.cmp
 	r.RunRule("C01.cmp", "keyword <-> comparison table: each bound keyword's failure site is guarded by exactly the negation of the JSON-Schema draft-4 relation between the value-derived operand and the operand derived from that keyword's Schema field (operand roles by dependency roots, not by name); exclusive bounds additionally guarded by their flag; uniqueItems by flag and checker(value); multipleOf tests value / bound; required tests key absence in value", 13, func() {
@@ -992,5 +993,93 @@ func c01Length(r *core.Report) {
 			core.Fail("visitJSONString: the length variable is never assigned")
 		}
 		r.Check(bad == "", "length:visitJSONString", p.Pos(fd.Pos()), "one per character", "the length held against minLength/maxLength is "+bad+": a string is then longer than its number of characters (an emoji counts 2 in UTF-16, 4 in UTF-8), so `minLength: 2` accepts one character and `maxLength: 2` rejects two")
+	})
+}
+
+// c01Unsigned: the six size bounds are unsigned 64-bit numbers and are compared as such.
+func c01Unsigned(r *core.Report) {
+	p := r.Prog
+	info := p.Pkg("openapi3").TypesInfo
+	bounds := map[string]bool{"MinLength": true, "MaxLength": true, "MinItems": true, "MaxItems": true, "MinProps": true, "MaxProps": true}
+	r.RunRule("C01.unsigned", "minLength, maxLength, minItems, maxItems, minProperties and maxProperties are uint64 in the model and are compared as unsigned numbers: in the functions of package openapi3 that take a value to validate, no ordering comparison has an operand that is one of these bounds (the field, its dereference, or a local assigned from it) converted to a signed integer type — a bound of 2^63 or more wraps negative, so `minLength: 9223372036854775808` accepts every string and `maxItems: 18446744073709551615` rejects every array", 6, func() {
+		perFn := map[string]int{}
+		for _, d := range p.AllDecls("openapi3") {
+			if d.Body == nil || !strings.HasPrefix(d.Name.Name, "visitJSON") {
+				continue
+			}
+			ff := core.NewFuncFacts(p, info, d)
+			// isBound: e denotes one of the bounds; through *e, a local assigned from it
+			var isBound func(e ast.Expr, depth int) string
+			isBound = func(e ast.Expr, depth int) string {
+				e = ast.Unparen(e)
+				if depth > 3 {
+					return ""
+				}
+				switch x := e.(type) {
+				case *ast.StarExpr:
+					return isBound(x.X, depth+1)
+				case *ast.SelectorExpr:
+					if bounds[x.Sel.Name] {
+						if n := core.NamedOf(info.TypeOf(x.X)); n != nil && n.Obj().Name() == "Schema" {
+							return x.Sel.Name
+						}
+					}
+				case *ast.Ident:
+					o := info.ObjectOf(x)
+					if o == nil {
+						return ""
+					}
+					for _, a := range ff.Assigns(o) {
+						if a.Rhs != nil {
+							if b := isBound(a.Rhs, depth+1); b != "" {
+								return b
+							}
+						}
+					}
+				}
+				return ""
+			}
+			ast.Inspect(d.Body, func(n ast.Node) bool {
+				be, ok := n.(*ast.BinaryExpr)
+				if !ok {
+					return true
+				}
+				switch be.Op {
+				case token.LSS, token.GTR, token.LEQ, token.GEQ:
+				default:
+					return true
+				}
+				for _, side := range []ast.Expr{be.X, be.Y} {
+					side = ast.Unparen(side)
+					conv := ""
+					inner := side
+					if c, ok := side.(*ast.CallExpr); ok && len(c.Args) == 1 {
+						if tv, ok := info.Types[c.Fun]; ok && tv.IsType() {
+							inner = c.Args[0]
+							if b, ok := tv.Type.Underlying().(*types.Basic); ok && b.Info()&types.IsInteger != 0 && b.Info()&types.IsUnsigned == 0 {
+								conv = tv.Type.String()
+							}
+						}
+					}
+					b := isBound(inner, 0)
+					if b == "" {
+						continue
+					}
+					if conv != "" {
+						// a conversion under a test of the bound against the largest signed value is exact
+						for _, a := range core.Atoms(core.GuardsAt(info, d.Body, be)) {
+							if t := core.ExprStr(a.Expr); strings.Contains(t, core.ExprStr(inner)) && strings.Contains(t, "MaxInt") {
+								conv = ""
+							}
+						}
+					}
+					fn := core.FuncName(d)
+					perFn[fn+b]++
+					key := fmt.Sprintf("unsigned:%s/%s#%d", fn, b, perFn[fn+b])
+					r.Check(conv == "", key, p.Pos(be.Pos()), "compared as the unsigned number it is", fmt.Sprintf("the bound %s (uint64) is converted to %s for the comparison `%s`: a bound of 2^63 or more becomes negative, so a lower bound that large accepts everything and an upper bound that large rejects everything", b, conv, core.ExprStr(be)))
+				}
+				return true
+			})
+		}
 	})
 }
